@@ -455,3 +455,36 @@ async fn staking_typed_transaction_gets_no_exemption() {
         }
     }
 }
+
+/// C09 ("a transaction that crosses the wire keeps its hash, its signature validity and its validity verdict"): what a node
+/// judges after Transaction::generate is what it stores and sends on — received with whatever output numbering, a
+/// transaction has the same hash and the same signature verdict on this node and on the next one that decodes this node's
+/// re-encoding of it
+#[test]
+fn received_transaction_keeps_hash_and_signature_verdict_on_the_next_hop() {
+    use crate::core::util::crypto::{generate_keys, sign, verify_signature};
+    let mut rng = Rng::from_env();
+    let (pk, sk) = generate_keys();
+    for round in 0..600 {
+        let mut tx = rand_tx(&mut rng, 4);
+        tx.transaction_type = TransactionType::Normal;
+        for s in tx.from.iter_mut() { s.public_key = pk; }
+        let honest_numbering = rng.below(2) == 0;
+        if honest_numbering { for (i, s) in tx.to.iter_mut().enumerate() { s.slip_index = i as u8; } }
+        // signed by its sender over exactly the bytes it sends
+        tx.signature = sign(&tx.serialize_for_signature(), &sk);
+        let sent = tx.serialize_for_net();
+        let mut first = Transaction::deserialize_from_net(&sent).unwrap();
+        first.generate(&pk, 0, 0);
+        let verdict_first = verify_signature(first.hash_for_signature.as_ref().unwrap(), &first.signature, &pk);
+        let mut second = Transaction::deserialize_from_net(&first.serialize_for_net()).unwrap();
+        second.generate(&pk, 0, 0);
+        let verdict_second = verify_signature(second.hash_for_signature.as_ref().unwrap(), &second.signature, &pk);
+        if first.hash_for_signature != second.hash_for_signature || verdict_first != verdict_second {
+            witness(format!("round {}: a signed transaction with {} outputs numbered {:?} on the wire: the node that receives it computes hash {} (signature valid: {}), the node that receives that node's re-encoding computes hash {} (signature valid: {})",
+                round, tx.to.len(), tx.to.iter().map(|s| s.slip_index).collect::<Vec<_>>(), hex::encode(&first.hash_for_signature.unwrap()[0..6]), verdict_first,
+                hex::encode(&second.hash_for_signature.unwrap()[0..6]), verdict_second));
+        }
+        if honest_numbering && !verdict_first { witness(format!("round {}: a transaction signed over outputs numbered by position does not verify after generate()", round)); }
+    }
+}
